@@ -114,6 +114,9 @@ fn issuance<C: Cs>(ctx: &Ctx, st: &Setup<C>, own: Option<&CL03CommitmentPublicKe
         ctx.violation("C14:honest-proof-rejected", json!({"case":case,"hidden":u,"n":n,"outcome":format!("{:?}/{}", ok.value, ok.outcome.short())}));
         return;
     }
+    if let Some(mode) = json_modes(&run.zk) {
+        ctx.violation("C14:json-roundtrip", json!({"case":case,"mode":mode}));
+    }
     // the same request as the issuer really sees it: value-only commitments, proof transported as JSON
     let ok2 = ctx.call("ZKPoK::verify_proof", &case, None, || Ok::<_, ()>(run.verify_as_issuer(&run.zk, &c, &u)));
     if ok2.value != Some(true) {
@@ -220,6 +223,8 @@ fn issuance<C: Cs>(ctx: &Ctx, st: &Setup<C>, own: Option<&CL03CommitmentPublicKe
             refuse(&format!("other-hidden-set#{:?}", u2), &run.zk, &c, &u2, u2.len() == u.len());
         }
     }
+    // the issuer believes that nothing is hidden (empty list): the commitment then must not carry anything unseen
+    refuse("other-hidden-set#empty", &run.zk, &c, &[], true);
     // other bases / pk
     {
         let full = format!("{}/other-bases", case);
